@@ -94,8 +94,13 @@ def piece(draw, fr: Frame, kinds=None):
         return _poly_d(pts, closed=(k == "poly")), k
     if k == "curvy":
         a, b, c, e = (_P(draw, fr) for _ in range(4))
-        form = draw(st.sampled_from(["Q", "C", "A", "mix"]))
-        if form == "Q":
+        form = draw(st.sampled_from(["Q", "C", "A", "mix", "A-full"]))
+        if form == "A-full":
+            # the "whole circle with one arc" idiom: a large arc that ends a hair (2e-9, more than picosvg's own 1e-9
+            # snap) from where it starts - a disc, not an empty path, at whatever coordinates it sits
+            r = num(draw(st.integers(10, 40)) * u)
+            d = f"M{_xy(a)} A{r} {r} 0 1 {draw(st.integers(0, 1))} {num(a[0])},{a[1] - 2e-9!r}" + draw(st.sampled_from([" Z", ""]))
+        elif form == "Q":
             d = f"M{_xy(a)} Q{_xy(b)} {_xy(c)} Q{_xy(e)} {_xy(a)} Z"
         elif form == "C":
             d = f"M{_xy(a)} C{_xy(b)} {_xy(c)} {_xy(e)} L{_xy(a)} Z"
